@@ -31,6 +31,15 @@ def run(chk, replay=None):
             if mo != 'TABLEMISS' and pi != pm:
                 chk.disagree('emitted / skipped', {'cfg': cfg.describe(), 'line': l[:300].decode('utf-8', 'replace')}, pi, pm)
             if io != l: chk.nontriv((ci, l))
+            if (pi == 'PANIC' or (isinstance(io, bytes) and jtree.parse(io) is None and l.count(b'{') + l.count(b'[') < 400)) and not getattr(chk, '_shrunk', False):
+                chk._shrunk = True
+                from vlib import shrink
+                def fails(b, cfg=cfg):
+                    o = shrink.impl_line(cfg, b)
+                    return (isinstance(o, str) and o.startswith('PANIC')) or (isinstance(o, bytes) and jtree.parse(o) is None)
+                sb = shrink.shrink_line(l, fails)
+                if sb != l:
+                    chk.violate('panic or malformed output (shrunk witness)', {'cfg': cfg.describe(), 'shrunk_input': sb.decode('utf-8', 'replace'), 'result': str(shrink.impl_line(cfg, sb))[:600]}, tags=['panic' if pi == 'PANIC' else 'malformed'])
             if pi == 'PANIC':
                 chk.violate('panic on a line', {'cfg': cfg.describe(), 'line': l[:1000].decode('utf-8', 'replace'), 'message': io}, tags=['panic'])
             elif isinstance(io, bytes):
